@@ -155,18 +155,29 @@ def enumerate_cases(meta, tier, seed, scheds):
             else:
                 step = 64 if tier == "quick" else 8
                 offs = set(range(seed % step, size, step)) | set(st)
-            heavy = set(f + 6 for f in pf["frames"])      # top byte of a page's size prefix: see tcase.Solo in the driver
+            # The top byte of a page's size prefix (frame + 6): a flip there makes ltx allocate up to 4 GiB.  Masks >= 0x04
+            # run in a child process of their own (tcase.Solo in the driver); quick tier does that for three frames per
+            # file and uses mask 0x01 (16 MiB) for the others.
+            top = set(f + 6 for f in pf["frames"])
+            fr = pf["frames"]
+            solo_ok = top if tier == "thorough" else set(f + 6 for f in (fr[0], fr[len(fr) // 2], fr[-1]))
+
+            def flip(o, mk, cls):
+                if o in top and mk >= 4 and o not in solo_ok:
+                    mk = 0x01
+                add(rid, "flip", file=fi, off=o, mask=mk, exp="any", cls=cls, solo=(o in top and mk >= 4))
+
             for o in sorted(offs):
                 cls = block_class(pf, o)
                 add(rid, "trunc", file=fi, off=o, exp="error", cls=cls + ":" + st.get(o, "x"))
-                add(rid, "flip", file=fi, off=o, mask=mask, exp="any", cls=cls + ":" + st.get(o, "x"), solo=o in heavy)
+                flip(o, mask, cls + ":" + st.get(o, "x"))
                 if o in st:
-                    add(rid, "flip", file=fi, off=o, mask=masks[(seed + 1) % 4], exp="any", cls=cls + ":" + st[o], solo=o in heavy)
+                    flip(o, masks[(seed + 1) % 4], cls + ":" + st[o])
             # corruption + existing output / + integrity check: the error paths must not disturb either
             for o in (50, 100, pf["frames"][0] + 10, pf["pbEnd"] + 8, size - 1):
                 if o < size:
                     add(rid, "trunc", file=fi, off=o, pre=True, exp="error", cls="exists")
-                    add(rid, "flip", file=fi, off=o, mask=0xFF, integ=1, exp="any", cls=block_class(pf, o) + ":integ", solo=o in heavy)
+                    add(rid, "flip", file=fi, off=o, mask=0xFF, integ=1, exp="any", cls=block_class(pf, o) + ":integ")
         # --- read faults
         if rid > 1 and tier == "quick":
             continue
@@ -187,6 +198,10 @@ def enumerate_cases(meta, tier, seed, scheds):
             for k in (2, BUDGET, BUDGET + 1):
                 fl = [{"at": o, "kind": "err" if i % 2 == 0 else "eof", "with": True} for i, o in enumerate(incr[:k])]
                 add(rid, "readfault", file=fi, off=incr[0], faults=fl, exp=expected_for_faults(fl), cls="rf:incr")
+            # the file disappears between two attempts (os.ErrNotExist on the re-open: no retry, resumable_reader.go:85)
+            for first in ({"at": mid, "kind": "err", "with": True}, {"at": 100, "kind": "eof", "with": False}):
+                fl = [first, {"at": 0, "kind": "gone", "with": False}]
+                add(rid, "readfault", file=fi, off=first["at"], faults=fl, exp="error", cls="rf:gone")
             # behaviours of the reader machine (every edge of its state graph)
             for sc in scheds:
                 b1 = rnd.choice([37, 100, fr[0] + 3, mid, mid + 6, mid + 40])
